@@ -76,6 +76,16 @@ def make_cases(rnd, tier, progs):
             body.append((rnd.randrange(nmod), rnd.choice(FLAGQ)))
         hist, nobs = modcheck.hist_with_obs(rnd, body, nmod)
         out.append(dict(src=src, hist=hist, nobs=nobs, family="flags-around-transformations" if "int[8] sw = 1;\nh q[0];" not in src else "flags-in-every-container"))
+    # every transformation, in both modes, on every structured program: all four answers on every module afterwards
+    for src in modcheck.FIXED_PROGRAMS:
+        for t in modcorr.TRANSFORMS:
+            for inpl in (True, False):
+                body = [(0, t, inpl)]
+                nmod = 1 if inpl else 2
+                for i in range(nmod):
+                    body += [(i, q) for q in FLAGQ]
+                hist, nobs = modcheck.hist_with_obs(rnd, body, nmod)
+                out.append(dict(src=src, hist=hist, nobs=nobs, family="answers-after-each-transformation"))
     return out + cached_flag_histories(rnd)
 
 
